@@ -208,7 +208,11 @@ func (r Rule) Apply(facts *FactSet, newFacts *FactSet, syms *SymbolTable) error 
 		}
 	}
 
-	combinations := combine(variables, r.Body, r.Expressions, facts, syms)
+	// closing stop releases the producer goroutine when we return before
+	// having consumed every combination
+	stop := make(chan struct{})
+	defer close(stop)
+	combinations := combine(variables, r.Body, r.Expressions, facts, syms, stop)
 
 	for res := range combinations {
 		if res.error != nil {
@@ -354,7 +358,8 @@ func (w *World) Rules() []Rule {
 }
 
 func (w *World) Run(syms *SymbolTable) error {
-	done := make(chan error)
+	// buffered: the worker must not block on its result after a timeout
+	done := make(chan error, 1)
 	ctx, cancel := context.WithTimeout(context.Background(), w.runLimits.maxDuration)
 	defer cancel()
 
@@ -482,7 +487,7 @@ func (m MatchedVariables) Clone() MatchedVariables {
 	return res
 }
 
-func combine(variables MatchedVariables, predicates []Predicate, expressions []Expression, facts *FactSet, syms *SymbolTable) <-chan struct {
+func combine(variables MatchedVariables, predicates []Predicate, expressions []Expression, facts *FactSet, syms *SymbolTable, stop <-chan struct{}) <-chan struct {
 	MatchedVariables
 	error
 } {
@@ -565,10 +570,13 @@ func combine(variables MatchedVariables, predicates []Predicate, expressions []E
 						res, err := e.Evaluate(complete_vars, syms)
 						if err != nil {
 							fmt.Printf("expression error: %+v", err)
-							c <- struct {
+							select {
+							case c <- struct {
 								MatchedVariables
 								error
-							}{complete_vars, err}
+							}{complete_vars, err}:
+							case <-stop:
+							}
 
 							return
 						}
@@ -580,10 +588,14 @@ func combine(variables MatchedVariables, predicates []Predicate, expressions []E
 
 					if valid {
 						//fmt.Printf("sending valid variables %+v\n", complete_vars)
-						c <- struct {
+						select {
+						case c <- struct {
 							MatchedVariables
 							error
-						}{complete_vars, nil}
+						}{complete_vars, nil}:
+						case <-stop:
+							return
+						}
 					}
 				} else {
 					// if all predicates match but variables are not complete, it means
